@@ -137,7 +137,16 @@ func GenC07(seed, index uint64) *Workload {
 	for i := 0; i < nexpr; i++ {
 		w.Exprs = append(w.Exprs, specOf(GenExpr(r.Fork(100+uint64(i)), bias)))
 	}
-	if r.P(1, 40) {
+	// abort-then-overlap runs (decided from a stream of their own, so that the
+	// other runs of a seed stay what they were): every client first calls into
+	// one construct on a document whose long arrays end in a wrong-typed
+	// element (a call aborted after a lot of progress), then all clients call
+	// into the same construct on a clean document at the same time - state
+	// that an aborted call leaves behind (a scratch value released twice, a
+	// half-updated table) only shows when two later calls overlap.
+	aux := NewRng(seed, 0xC07A, index)
+	abortRun := aux.P(1, 40)
+	if r.P(1, 40) || abortRun {
 		// big data: shared big documents, expressions over their long arrays
 		// (one of them with a wrong-typed element near the end of its long arrays);
 		// four fifths of these runs use hundreds instead of thousands of elements
@@ -154,6 +163,15 @@ func GenC07(seed, index uint64) *Workload {
 		}
 		ntasks = 2 + r.Intn(3)
 		bigRun = true
+		if abortRun {
+			w.Docs = []string{GenMediumDoc(aux.Fork(7), "T0!"), GenMediumDoc(aux.Fork(8), "T1~")}
+			w.Exprs = nil
+			nexpr = 1 + aux.Intn(2)
+			fam = pick(aux, BigFamilies[:6])
+			for i := 0; i < nexpr; i++ {
+				w.Exprs = append(w.Exprs, specOf(GenBigExprFamily(aux.Fork(300+uint64(i)), fam)))
+			}
+		}
 	}
 	famRun := !bigRun && r.P(1, 8)
 	if famRun {
@@ -249,6 +267,12 @@ func GenC07(seed, index uint64) *Workload {
 			}
 			e := r.Intn(nexpr)
 			op := Op{E: e, D: r.Intn(ndocs), Pol: randPolicy(r)}
+			if abortRun {
+				op.D = 1
+				if k == 0 {
+					op.D = 0
+				}
+			}
 			switch {
 			case deep:
 				op.K = "compile"
@@ -272,6 +296,8 @@ func GenC07(seed, index uint64) *Workload {
 		w.Note = "family"
 	case storm:
 		w.Note = "storm"
+	case abortRun:
+		w.Note = "abort-overlap"
 	case bigRun:
 		w.Note = "big"
 	case deep:
@@ -281,6 +307,13 @@ func GenC07(seed, index uint64) *Workload {
 	if (famRun || storm) && r.P(1, 2) {
 		// these runs are about narrow windows next to shared state
 		w.Sched = simrt.Schedule{Kind: simrt.StratHotWalk, Seed: r.U64(), HotDen: pick(r, []uint64{2, 3}), WalkDen: pick(r, []uint64{512, 4096})}
+	}
+	if abortRun && aux.P(3, 4) {
+		// the clients have to overlap inside the construct
+		w.Sched = simrt.Schedule{Kind: simrt.StratWalk, Seed: aux.U64(), WalkDen: pick(aux, []uint64{32, 128, 512})}
+		if aux.P(1, 3) {
+			w.Sched = simrt.Schedule{Kind: simrt.StratHotWalk, Seed: aux.U64(), HotDen: pick(aux, []uint64{2, 3}), WalkDen: pick(aux, []uint64{128, 1024})}
+		}
 	}
 	return w
 }
